@@ -223,5 +223,10 @@ def run(ck, facts, tier):
     rule_labels(ck, facts)
     rule_name_spelling(ck, facts)
     rule_linebreak_uniform(ck, facts)
-    ck.not_decided("invariance under whitespace, comments, line breaks and redundant parentheses (behaviour of the chumsky tokenizer and of the parser on concrete texts)")
+    # a comment must end where the comment ends, or adding / editing one changes the program (model of the tokenizer's
+    # comment combinators, shared with C13)
+    from . import c13
+
+    c13.rule_comment_lexer(ck, facts, tier)
+    ck.not_decided("invariance under whitespace, line breaks and redundant parentheses (behaviour of the rest of the chumsky tokenizer and of the parser on concrete texts)")
     ck.not_decided("that adding an agreeing annotation never changes inference results")
